@@ -57,10 +57,60 @@ class Secrets:
         self.names = {}       # qual -> set of tainted local names
         self.ret = set()      # quals of functions whose return value is tainted
         self.exc = set()      # tainted exception class names
+        self._tries = {}
+        self.implicit = []    # (function, line, exception, construct): library / mapping operations that raise with a secret operand
         self.funcs = prog.all_functions()
         for f in self.funcs:
             self.names[f.qual] = set()
         self._fix()
+
+    def _try_map(self, fi):
+        m = self._tries.get(fi.qual)
+        if m is None:
+            m = {}
+
+            def walk(node, stack):
+                for c in ast.iter_child_nodes(node):
+                    if isinstance(c, (ast.FunctionDef, ast.AsyncFunctionDef, ast.ClassDef)) and c is not fi.node:
+                        continue
+                    if isinstance(c, ast.Try):
+                        for b in c.body:
+                            m[id(b)] = [c] + stack
+                            walk(b, [c] + stack)
+                        for part in c.handlers + c.orelse + c.finalbody:
+                            m[id(part)] = stack
+                            walk(part, stack)
+                    else:
+                        m[id(c)] = stack
+                        walk(c, stack)
+            walk(fi.node, [])
+            self._tries[fi.qual] = m
+        return m
+
+    def _implicit(self, fi, n, exc, tainted_locals):
+        """an operation at node n raises `exc` with a secret operand in its text: caught in this function -> the handler's variable
+        is tainted (nothing if it binds none); otherwise the exception class is tainted for every handler that can catch it"""
+        for tr in self._try_map(fi).get(id(n), []):
+            for h in tr.handlers:
+                names = []
+                if h.type is None:
+                    names = ['BaseException']
+                else:
+                    for el in (h.type.elts if isinstance(h.type, ast.Tuple) else [h.type]):
+                        nm = self.hier.name_of(el, fi.module, fi.cls)
+                        if nm:
+                            names.append(nm)
+                if any(self.hier.is_sub(exc, c) for c in names):
+                    if h.name and h.name not in tainted_locals:
+                        tainted_locals.add(h.name)
+                        self.implicit.append((fi.qual, n.lineno, exc, src(n)[:80], 'caught locally as ' + h.name))
+                        return True
+                    return False
+        if exc in self.exc:
+            return False
+        self.exc.add(exc)
+        self.implicit.append((fi.qual, n.lineno, exc, src(n)[:80], 'escapes the function'))
+        return True
 
     def secret_id(self, fi, ident):
         return ident in SECRET_IDS or ident in SECRET_IDS_BY_MODULE.get(fi.module.name if fi else '', ())
@@ -192,6 +242,11 @@ class Secrets:
                                 self.why(fi, a) for a in list(n.exc.args) + [k.value for k in n.exc.keywords]):
                             self.exc.add(name)
                             changed = True
+                    elif isinstance(n, ast.Subscript) and isinstance(n.ctx, ast.Load) and not isinstance(n.slice, (ast.Slice, ast.Constant)) \
+                            and self.why(fi, n.slice):
+                        # a mapping lookup that misses raises KeyError(key): the exception text is the key
+                        if self._implicit(fi, n, 'KeyError', t):
+                            changed = True
                     elif isinstance(n, ast.ExceptHandler) and n.name and n.name not in t:
                         caught = []
                         if n.type is None:
@@ -204,6 +259,20 @@ class Secrets:
                         if any(self.hier.is_sub(e, c) or self.hier.is_sub(c, e) for e in self.exc for c in caught):
                             t.add(n.name)
                     elif isinstance(n, ast.Call):
+                        # library conversions whose failure message (or repr) embeds the operand they were given
+                        nm_ = callee_name(n)
+                        ex_ = None
+                        if nm_ in ('encode', 'decode') and isinstance(n.func, ast.Attribute) and self.why(fi, n.func.value):
+                            codec = n.args[0] if n.args else next((k.value for k in n.keywords if k.arg == 'encoding'), None)
+                            lossless = codec is None or (isinstance(codec, ast.Constant) and str(codec.value).lower().replace('_', '-') in
+                                                         ('utf-8', 'utf8')) and nm_ == 'encode'
+                            if not lossless:
+                                ex_ = 'UnicodeEncodeError' if nm_ == 'encode' else 'UnicodeDecodeError'
+                        elif nm_ in ('int', 'float', 'ip_address', 'ip_network', 'ip_interface', 'UUID') and isinstance(n.func, ast.Name) \
+                                and n.args and self.why(fi, n.args[0]):
+                            ex_ = 'ValueError'
+                        if ex_ and self._implicit(fi, n, ex_, t):
+                            changed = True
                         r = self.res.resolve_call(n, fi, count=False)
                         if r.kind in ('repo', 'ctor') and callee_name(n) not in LOG_WRAPPERS | SANITISERS:
                             for tgt in r.targets:
@@ -392,6 +461,7 @@ def run(ctx):
     ctx.ok('Z1', 'positive control: a key logged at INFO and a key embedded in an exception message that a handler logs at ERROR are '
            'both reported on the fixture, the debug dump is not')
     sec = Secrets(prog, res)
+    ctx.stats["operations that raise with a secret operand (KeyError of a lookup, failing conversions)"] = [list(x) for x in sec.implicit]
     ctx.stats['Z1 functions holding key material'] = {q: sorted(s) for q, s in sec.names.items() if s}
     ctx.stats['Z1 functions returning key material'] = sorted(sec.ret)
     ctx.stats['Z1 exception classes carrying key material'] = sorted(sec.exc)
